@@ -363,34 +363,51 @@ def copy_probe(probe):
     return (Xp.copy(), {a: (v.copy() if hasattr(v, "copy") else v) for a, v in kw.items()})
 
 
+def take(ret):
+    """Copy an answer, then let the caller overwrite the returned object in place: an estimator must not hand
+    out (views of) its internal arrays, or later answers would change."""
+    if isinstance(ret, pd.DataFrame):
+        val = ret.to_numpy(copy=True)
+    else:
+        val = np.array(ret, copy=True)
+    try:
+        if isinstance(ret, np.ndarray) and ret.flags.writeable and ret.dtype.kind in "fiub":
+            ret[...] = 0
+        elif isinstance(ret, pd.DataFrame):
+            ret.iloc[:, :] = 0
+    except (ValueError, TypeError):
+        pass
+    return val
+
+
 def observe(plan, est, k, seed, probe=None):
     """Predict-type answers + key fitted attributes, as one canonical structure."""
     cls = plan["cls"]
     Xp, kw = probe if probe is not None else probe_set(plan, k)
     out = {}
     if cls == "TO":
-        out["pmf"] = np.asarray(est._pmf_predict(Xp, **kw))
-        out["pred"] = np.asarray(est.predict(Xp, random_state=seed, **kw))
+        out["pmf"] = take(est._pmf_predict(Xp, **kw))
+        out["pred"] = take(est.predict(Xp, random_state=seed, **kw))
         d = est.interpolated_thresholder_.interpolation_dict
         out["interp"] = {str(g): {a: (repr(v[a]) if "operation" in a else float(v[a])) for a in sorted(v.keys())} for g, v in d.items()}
     elif cls in ("EG", "EGR"):
-        out["pmf"] = np.asarray(est._pmf_predict(Xp))
-        out["pred"] = np.asarray(est.predict(Xp, random_state=seed))
+        out["pmf"] = take(est._pmf_predict(Xp))
+        out["pred"] = take(est.predict(Xp, random_state=seed))
         out["weights"] = [float(est.weights_[t]) for t in sorted(est.weights_.index)]
         out["gap"] = float(est.best_gap_)
         out["iters"] = [int(est.best_iter_), int(est.last_iter_), len(est.predictors_)]
     elif cls == "GS":
-        out["pred"] = np.asarray(est.predict(Xp))
+        out["pred"] = take(est.predict(Xp))
         out["lam"] = est.lambda_vecs_.to_numpy()
         out["obj"] = [float(o) for o in est.objectives_]
         out["best"] = int(est.best_idx_)
     elif cls == "CR":
-        out["tr"] = np.asarray(est.transform(Xp))
+        out["tr"] = take(est.transform(Xp))
         out["beta"] = np.asarray(est.beta_)
         out["mean"] = np.asarray(est.sensitive_mean_)
     else:
-        out["raw"] = np.asarray(est._raw_predict(Xp))
-        out["pred"] = np.asarray(est.predict(Xp))
+        out["raw"] = take(est._raw_predict(Xp))
+        out["pred"] = take(est.predict(Xp))
         eng = est.backendEngine_
         out["params"] = [p.detach().numpy().copy() for p in eng.predictor_model.parameters()] + \
                         [p.detach().numpy().copy() for p in eng.adversary_model.parameters()]
